@@ -248,6 +248,55 @@ def items_text(items):
     return ' '.join(x for x in out if x)
 
 
+class Env:
+    """lexically scoped environment: `let` defines in the innermost scope, mutation of an existing local writes through to
+    the scope that defines it (so effects inside `if`/`match`/loop bodies survive the block)"""
+    __slots__ = ('d', 'parent')
+
+    def __init__(self, parent=None, d=None):
+        self.d = d if d is not None else {}
+        self.parent = parent
+
+    def child(self):
+        return Env(self)
+
+    def __contains__(self, k):
+        e = self
+        while e is not None:
+            if k in e.d:
+                return True
+            e = e.parent
+        return False
+
+    def __getitem__(self, k):
+        e = self
+        while e is not None:
+            if k in e.d:
+                return e.d[k]
+            e = e.parent
+        raise KeyError(k)
+
+    def get(self, k, default=None):
+        e = self
+        while e is not None:
+            if k in e.d:
+                return e.d[k]
+            e = e.parent
+        return default
+
+    def __setitem__(self, k, v):
+        self.d[k] = v
+
+    def assign(self, k, v):
+        e = self
+        while e is not None:
+            if k in e.d:
+                e.d[k] = v
+                return
+            e = e.parent
+        self.d[k] = v
+
+
 class Interp:
     NO_INLINE = set()
 
@@ -316,7 +365,7 @@ class Interp:
         fr = {'fn': q if top or not self.frames else self.frames[-1]['fn'], 'callee': q, 'conds': [] if top or not self.frames else list(self.frame['conds']),
               'loops': [] if top or not self.frames else list(self.frame['loops']), 'returns': [], 'mod': f['mod'], 'env_stack': []}
         self.frames.append(fr)
-        env = {}
+        env = Env()
         for p, a in zip(f['params'], args):
             self.bind(p['pat'], a, env)
         fr['nconds0'] = len(fr['conds'])
@@ -404,7 +453,7 @@ class Interp:
             return self.bind(e['pat'], s, env)
         if k == 'Macro' and e['name'] == 'matches' and 'm_expr' in e:
             s = self.expr(e['m_expr'], env)
-            env2 = dict(env)
+            env2 = env.child()
             c = self.bind(e['m_pat'], s, env2)
             if e['m_guard'] is not None:
                 c = ('and', [c, self.cond(e['m_guard'], env2)])
@@ -434,7 +483,7 @@ class Interp:
 
     # --- blocks / statements ---------------------------------------------------------------------------------------------
     def block(self, b, env):
-        env = dict(env)
+        env = env.child()
         val = ('tuple', [])
         stmts = b['stmts']
         for i, st in enumerate(stmts):
@@ -448,7 +497,7 @@ class Interp:
                 if st.get('else') is not None and c != TRUE:
                     # let-else: diverging branch
                     self.frame['conds'].append(self.neg(c))
-                    self.expr(st['else'], dict(env))
+                    self.expr(st['else'], env.child())
                     self.frame['conds'].pop()
             elif k == 'ExprStmt':
                 last = i == len(stmts) - 1 and not st['semi']
@@ -546,7 +595,7 @@ class Interp:
         return self.block(e, env)
 
     def e_Closure(self, e, env, **kw):
-        return ('closure', e, dict(env), self.frame['mod'])
+        return ('closure', e, env.child(), self.frame['mod'])
 
     def e_Return(self, e, env, **kw):
         v = self.expr(e['expr'], env) if e['expr'] else ('tuple', [])
@@ -561,6 +610,9 @@ class Interp:
         v = self.expr(e['expr'], env)
         fr = self.frame
         cs = fr['conds'][fr.get('nconds0', 0):]
+        oc, ov = self.as_opt(v)
+        if oc is not None and v[0] != 'opt':
+            v = ('opt', oc, ov)
         ok = v[1] if v[0] == 'opt' else ('t', ('is_ok', v))
         c = self.neg(ok)
         pc = c if not cs else ('and', list(cs) + [c])
@@ -572,7 +624,7 @@ class Interp:
         return v[2] if v[0] == 'opt' else ('unwrap', v)
 
     def e_If(self, e, env, **kw):
-        env2 = dict(env)
+        env2 = env.child()
         c = self.cond(e['cond'], env2)
         n0 = len(self.frame['conds'])
         self.frame['conds'].append(c)
@@ -580,7 +632,7 @@ class Interp:
         del self.frame['conds'][n0:]
         self.frame['conds'].append(self.neg(c))
         if e['else'] is not None:
-            b = self.expr(e['else'], dict(env))
+            b = self.expr(e['else'], env.child())
         else:
             b = ('tuple', [])
         del self.frame['conds'][n0:]
@@ -608,7 +660,7 @@ class Interp:
         arms = []
         prior = []
         for a in e['arms']:
-            env2 = dict(env)
+            env2 = env.child()
             c = self.bind(a['pat'], s, env2)
             if a['guard'] is not None:
                 c = ('and', [c, self.cond(a['guard'], env2)])
@@ -627,7 +679,7 @@ class Interp:
         src = self.expr(e['expr'], env)
         eid = self.fresh('e')
         src, body0, conds = self.as_pipeline(src, eid)
-        env2 = dict(env)
+        env2 = env.child()
         c = self.bind(e['pat'], body0, env2)
         self.frame['loops'].append((eid, src, conds))
         self.block(e['body'], env2)
@@ -636,7 +688,7 @@ class Interp:
 
     def e_While(self, e, env, **kw):
         self.frame['loops'].append((self.fresh('w'), ('unknown', 'while', e['line'], ''), []))
-        self.block(e['body'], dict(env))
+        self.block(e['body'], env.child())
         self.frame['loops'].pop()
         return ('tuple', [])
 
@@ -654,7 +706,10 @@ class Interp:
         val = self.expr(e['r'], env)
         self.effect('assign', target=tgt, value=val, line=e['line'])
         if e['l']['k'] == 'Path' and len(e['l']['path']['segs']) == 1:
-            env[e['l']['path']['segs'][0]] = val
+            name = e['l']['path']['segs'][0]
+            old = env.get(name)
+            pc = self.pathcond()
+            env.assign(name, val if pc == TRUE or old is None else ('alt', [(pc, val), (TRUE, old)]))
         return ('tuple', [])
 
     def e_Other(self, e, env, **kw):
@@ -801,7 +856,7 @@ class Interp:
     def apply(self, clo, args):
         """apply a closure term to argument terms"""
         _, node, cenv, mod = clo
-        env = dict(cenv)
+        env = cenv.child()
         conds = []
         for p, a in zip(node['params'], args):
             c = self.bind(p, a, env)
@@ -873,7 +928,7 @@ class Interp:
             args = [self.expr(a, env) for a in e['args']]
             new = ('reorder', recv, m, args, self.pathcond())
             if e['recv']['k'] == 'Path' and len(e['recv']['path']['segs']) == 1:
-                env[e['recv']['path']['segs'][0]] = new
+                env.assign(e['recv']['path']['segs'][0], new)
             return ('tuple', [])
         if m in self.IDENTITY and not e['args']:
             return recv
